@@ -345,4 +345,26 @@ class Check(Property):
                                      f"x * ratio is {want_arr.tolist()}")
                         if not inplace and work.tolist() != arr.tolist():
                             v.append(f"{tag} [float, {arr.dtype} array]: the functional conversion modified its input")
+            # arrays of exact numbers (dtype=object, Fraction elements) in the Fraction registry, functionally and in place: every
+            # element is x times the exact ratio and stays an exact number
+            try:
+                ufr = regs.ureg("fraction")
+                Af, Bf = pint_uc(ufr, c["a"], "fraction", canonical=True), pint_uc(ufr, c["b"], "fraction", canonical=True)
+                one = ufr.convert(Fraction(1), Af, Bf)
+            except Exception:  # noqa: BLE001
+                one = None
+            if isinstance(one, Fraction) and fb != 0 and one == fa / fb:
+                xs = [Fraction(1), Fraction(7, 3), Fraction(-1500)]
+                for inplace in (False, True):
+                    work = np.array(xs, dtype=object)
+                    try:
+                        got = ufr.convert(work, Af, Bf, inplace=inplace)
+                        els = list(np.asarray(got, dtype=object).tolist())
+                    except Exception as exc:  # noqa: BLE001
+                        v.append(f"{tag} [fraction, object array, inplace={inplace}]: raised {type(exc).__name__}: {exc}")
+                        continue
+                    bad = [(x, e) for x, e in zip(xs, els) if isinstance(e, float) or e != x * fa / fb]
+                    if bad:
+                        v.append(f"{tag} [fraction, object array of Fractions, inplace={inplace}]: {bad[0][0]} converts to {bad[0][1]!r}, the exact "
+                                 f"ratio gives {bad[0][0] * fa / fb}")
         return v
